@@ -28,7 +28,7 @@
 EXTENDS ContAbs
 CONSTANTS DbGrow,        \* 100
           DbGrowThresh,  \* 200
-          DbInos, DbBlks, DbCnts,     \* universe of the fields (model checking); DbBlks: set of <<hi, lo>>
+          DbInos, DbBlks, DbCnts,     \* universe of the fields (model checking); DbBlks: numbers b standing for hi = b \div 8, lo = b % 8
           DbInitSizes,   \* Init
           DbMaxLen       \* bound on the number of elements (model checking only)
 VARIABLES dbList, dbSize, dbSorted, dbBag, dbTotal, dbRes
@@ -110,7 +110,7 @@ DbCopy == /\ dbRes' = DbR("copy", <<OK>>, <<OK>>)
 
 DbInit == /\ dbList = <<>> /\ dbSize \in DbInitSizes /\ dbSorted = 1        \* ext2fs_init_dblist: sorted = 1
           /\ dbBag = EmptyBag /\ dbTotal = 0 /\ dbRes = DbR("init", <<OK>>, <<OK>>)
-DbNext == \/ \E i \in DbInos : \E b \in DbBlks : \E c \in DbCnts : DbAdd(i, b[1], b[2], c) \/ DbSet(i, b[1], b[2], c)
+DbNext == \/ \E i \in DbInos : \E b \in DbBlks : \E c \in DbCnts : DbAdd(i, b \div 8, b % 8, c) \/ DbSet(i, b \div 8, b % 8, c)
           \/ \E alt \in BOOLEAN : DbSort(alt)
           \/ \E s \in 0..DbMaxLen : \E n \in 0..(DbMaxLen + 1) : DbIterate(s, n)
           \/ DbCount \/ DbGetLast \/ DbDropLast \/ DbCopy
